@@ -1,6 +1,8 @@
 // Hand-written regression scenarios for API-level defects that were fixed (known_findings.json). Case = "R <scenario id> [schema index]".
 // Each scenario states the property-level expectation directly, with no generator involved.
 #pragma once
+#include <djinterop/engine/v2/engine_library.hpp>
+
 #include "api_persist.hpp"
 
 namespace api
@@ -257,6 +259,29 @@ inline void prop_reg(const vf::Case& c, Ctx& ctx)
                         VF_CHECK(before == after, sname(sc) << ": " << kv.first << " with statement " << k << " failing left a partial update: " << first_diff_line(before, after));
                     }
             });
+            break;
+        case 13:  // F31/F32: table-level remove(): by track id as documented; unknown rows are reported
+            for (auto sc : e::supported_v2_schemas)
+            {
+                namespace v2 = djinterop::engine::v2;
+                auto lib = v2::engine_library::create_temporary(sc);
+                auto pt = lib.playlist();
+                auto et = lib.playlist_entity();
+                std::string uuid = lib.information().get().uuid;
+                int64_t l1 = pt.add(v2::playlist_row{0, "one", 0, true, 0, std::chrono::system_clock::time_point{}, true});
+                int64_t l2 = pt.add(v2::playlist_row{0, "two", 0, true, 0, std::chrono::system_clock::time_point{}, true});
+                et.add_back(v2::playlist_entity_row{0, l2, 7, uuid, 0, 0});
+                et.add_back(v2::playlist_entity_row{0, l1, 7, uuid, 0, 0});
+                et.add_back(v2::playlist_entity_row{0, l1, 5, uuid, 0, 0});  // entity id 3 holds track 5
+                et.remove(l1, 5);
+                VF_CHECK(et.track_ids(l1) == std::vector<int64_t>{7}, sname(sc) << ": remove(list, track 5) left " << ids_str(et.track_ids(l1)));
+                bool threw = false;
+                try { et.remove(l1, 12345); } catch (const std::exception&) { threw = true; }
+                VF_CHECK(threw, sname(sc) << ": playlist_entity_table::remove of an unknown track silently succeeded");
+                threw = false;
+                try { pt.remove(999); } catch (const std::exception&) { threw = true; }
+                VF_CHECK(threw, sname(sc) << ": playlist_table::remove of an unknown id silently succeeded");
+            }
             break;
         default: break;
     }
